@@ -476,6 +476,39 @@ def r17_16(run, model):
     run.floor("uses of resolve_trait_name", n, 5)
 
 
+def r17_19(run, model):
+    run.rule("R17.19", "the call form chosen by the type checker survives the middle end: in the term passes (mono, lift, anf) a vtable call "
+                       "(`EDynCall` / `CExpr::EDynCall`) is built only by the arm that matches a vtable call of the input - a pass that turns a "
+                       "resolved trait call into a vtable call picks the slot by method name alone, whatever trait the object was made for")
+    PASSES = (("crates/compiler/src/mono.rs", "mono_expr"), ("crates/compiler/src/lift.rs", "transform_expr"), ("crates/compiler/src/anf.rs", None))
+    n = 0
+    for rel, anchor in PASSES:
+        for f in model.fns(rel):
+            if f.body is None:
+                continue
+            par = None
+            for st in S.find(f.body, "Struct"):
+                if st["segs"][-1] != "EDynCall":
+                    continue
+                if par is None:
+                    par = S.Parents(f.body)
+                arm = next((a for a in par.ancestors(st) if a["k"] == "Arm"), None)
+                heads = set()
+                a_ = st
+                for a in par.ancestors(st):
+                    if a["k"] == "Arm":
+                        for alt in S.pat_alts(a["pat"]):
+                            h = S.pat_head(S.strip_refs(alt))
+                            if h[0] == "variant":
+                                heads.add(h[1][-1])
+                n += 1
+                run.ob("R17.19", f"{f.name}|a vtable call is built from a vtable call", "EDynCall" in heads, site(rel, st["sp"]),
+                       f"EDynCall constructed under the arms {sorted(heads) or 'none'}",
+                       witness="impl Label for dyn Show; fn label_of[T: Label](x: T) instantiated at dyn Show: mono rewrites Label::name(x) into "
+                               "x.vtable.name(x.data), which is Show's `name`")
+    run.floor("EDynCall constructions in mono / lift / anf", n, 3)
+
+
 def run(run, model):
     run.try_rule(r17_1, model)
     run.try_rule(r17_2, model)
@@ -507,6 +540,7 @@ def run(run, model):
     run.try_rule(r17_16, model)
     run.try_rule(r17_17, model)
     run.try_rule(r17_18, model)
+    run.try_rule(r17_19, model)
     # the call forms agree only if `Self` is instantiated under every type former of a trait method's signature (shared with C07 R07.2)
     from rules import c07 as _c07
     run.try_rule(_c07.r07_2, model, None, "C17")
